@@ -86,7 +86,8 @@ def applyUnpackFilter (myUid myGid : Nat) (ff : UnpackFilter) (m : Meta) : Outco
   if ff.mtime = ffContext then .err .usage else      -- "mtime=now not yet supported" (a panic before the fix)
   let m := if ff.mtime ≠ ffKeep then { m with mtime := ⟨ff.mtime, 0⟩ } else m
   let m := if ff.sticky ≠ ffKeep then { m with perms := clearBits m.perms permSticky } else m
-  if ff.setid = ffReject ∧ m.perms &&& (permSetuid ||| permSetgid) ≠ 0 then .err .filterRejection else
+  -- (a symlink has no mode of its own: bits a header claims for one are never materialised, so they offend nothing)
+  if ff.setid = ffReject ∧ m.kind ≠ .symlink ∧ m.perms &&& (permSetuid ||| permSetgid) ≠ 0 then .err .filterRejection else
   let m := if ff.setid ≠ ffReject ∧ ff.setid ≠ ffKeep then { m with perms := clearBits m.perms (permSetuid ||| permSetgid) } else m
   if ff.dev = ffReject ∧ isDevKind m.kind then .err .filterRejection else
   let m := if ff.dev ≠ ffReject ∧ ff.dev ≠ ffKeep ∧ isDevKind m.kind then { m with kind := .invalid } else m
